@@ -260,6 +260,8 @@ let handle_trace line name cfgs toks =
      List.iteri
        (fun idx o ->
          match o.ev with
+         | None when String.length o.raw > 3 && String.sub o.raw 0 3 = "WD." ->
+             raise (Rejected (idx, o.raw, "I5 lost toggle: the wake-up token was received from the channel but the loop did not come back to re-read the flag (a receive on the wake-up channel that the model does not have)"))
          | None -> raise (Rejected (idx, o.raw, "call outside the modelled interface sequence"))
          | Some e ->
              let stepped =
@@ -304,7 +306,10 @@ let handle_trace line name cfgs toks =
         a lock / access / hook event falsifies C13, any rejection falsifies C14's protocol, and a
         protocol-only rejection merely breaks the correspondence for C13 *)
      let at_discipline_event =
-       match List.nth_opt obs idx with Some { ev = Some e; _ } -> is_discipline_event e | Some { ev = None; _ } -> true | None -> false
+       match List.nth_opt obs idx with
+       | Some { ev = Some e; _ } -> is_discipline_event e
+       | Some { ev = None; raw; _ } -> not (String.length raw > 3 && String.sub raw 0 3 = "WD.")
+       | None -> false
      in
      (match prop_pf with
       | Some c -> pfail line (c ^ " ; LTS: " ^ clause)
@@ -446,6 +451,31 @@ let gen () =
             end)
       alphabet
   done;
+  (* deterministic directed set (always written, before the sample): application toggles placed at
+     every position of the transmitter's wake-up handling cycle S1..S4 / T1 / SEL (and T0): the
+     first transition found (shortest path) for every combination of
+     (event kind and value, transmitter pc, flag, last read flag, token, WakeUpChan fetched, application pc, lock owner),
+     before any cancellation - this includes the second toggle of an enable-disable / disable-enable
+     pair landing in the window right after the flag read *)
+  let prio = Hashtbl.create 1000 in
+  let prio_list = ref [] in
+  List.iter
+    (fun p ->
+      match p with
+      | ((SetFlag (_, _, _) | WakeSend (_, _)) as e) :: rpath -> (
+          match run (init cfg) (List.rev rpath) with
+          | Some s when not s.cancelled -> (
+              match s.th x with
+              | TTx y when (match y.t_pc with T0 | S1 | S2 | S3 | S4 | T1 | SEL -> true | _ -> false) ->
+                  let k = (tok_of_event e, y.t_pc, y.t_flag, y.t_last, y.t_wake, y.t_gotwake, s.th a, s.owner) in
+                  if not (Hashtbl.mem prio k) then begin
+                    Hashtbl.replace prio k ();
+                    prio_list := p :: !prio_list
+                  end
+              | _ -> ())
+          | _ -> ())
+      | _ -> ())
+    (List.rev !transitions);
   let all = Array.of_list !transitions in
   let n = Array.length all in
   let oc = open_out file in
@@ -482,6 +512,7 @@ let gen () =
   in
   if limit <= 0 || limit >= n then Array.iter emit all
   else begin
+    List.iter emit (List.rev !prio_list);
     let st = Random.State.make [| seed |] in
     (* sample without replacement: partial Fisher-Yates *)
     for k = 0 to limit - 1 do
@@ -493,6 +524,6 @@ let gen () =
     done
   end;
   close_out oc;
-  Printf.printf "GEN states=%d transitions=%d depth=%d written=%d\n" (Hashtbl.length seen) n !depth !written
+  Printf.printf "GEN states=%d transitions=%d depth=%d written=%d toggles=%d\n" (Hashtbl.length seen) n !depth !written (List.length !prio_list)
 
 let () = if Array.length Sys.argv > 1 && Sys.argv.(1) = "gen" then gen () else iter_lines handle
